@@ -206,6 +206,8 @@ impl FeoxStore {
             if self.enable_ttl && expiry > 0 {
                 let now = self.get_timestamp_pub();
                 if now > expiry {
+                    #[cfg(feoxdb_verif)]
+                    crate::verif::sched::point_key("c11_lazy_before_retire", key);
                     self.retire_expired_if_current(key, &current, now)?;
                     continue;
                 }
